@@ -157,6 +157,11 @@ def c19(prop, tier, res, replay=None):
         "positions in lexer error messages are not modelled; input is valid UTF-8 (the lexer rejects invalid UTF-8 at token starts)"], replay)
 
 
+OPFRONT = dict(sub="opfront", mode="opfront", family="opfront", shards=q(2, 8),
+               args=lambda tier, sd, sh: ["-seed", sd * 1000 + sh, "-n", 250 if tier == "quick" else 2500],
+               key_fields=["k", "case", "via"])
+
+
 PULLOPS = dict(sub="pullops", mode="pullops", family="pullops", shards=q(2, 8),
                args=lambda tier, sd, sh: ["-seed", sd * 1000 + sh, "-traces", 25 if tier == "quick" else 150, "-steps", 150 if tier == "quick" else 300],
                key_fields=["k", "now", "configured", "batch", "ready"])
